@@ -24,6 +24,7 @@ structure VS (cg : Compile.Graph) (fg : Factory.Graph) (ins : List Nat) (l : Lis
   inv : VI cg fg ins st'
   reg : ∀ k ∈ st.registered, k ∈ st'.registered
   ord : ∀ v ∈ st.order, v ∈ st'.order
+  ent : ∀ k, Visit.enter k ∈ st'.order → Visit.enter k ∈ st.order
   post : ∀ o ∈ l, ∀ r ∈ (toV o).refs, E.var r ∈ st'.registered
 
 /-- Static facts shared by all steps. -/
@@ -56,7 +57,7 @@ theorem visit_fold_vs (cg : Compile.Graph) (fg : Factory.Graph) (ins : List Nat)
     intro st st' h hinv _
     simp only [List.foldlM_nil, pure, Except.pure, Except.ok.injEq] at h
     subst h
-    exact ⟨hinv, fun _ hk => hk, fun _ hv => hv, by simp⟩
+    exact ⟨hinv, fun _ hk => hk, fun _ hv => hv, fun _ hk => hk, by simp⟩
   | cons o rest ih =>
     intro st st' h hinv hl
     simp only [List.foldlM_cons, bind, Except.bind] at h
@@ -67,7 +68,8 @@ theorem visit_fold_vs (cg : Compile.Graph) (fg : Factory.Graph) (ins : List Nat)
       have ho := hl o (by simp)
       have r1 := hf st o s1 h1 hinv ho.1 ho.2
       have r2 := ih s1 st' h r1.inv (fun o' ho' => hl o' (List.mem_cons_of_mem _ ho'))
-      refine ⟨r2.inv, fun k hk => r2.reg k (r1.reg k hk), fun v hv => r2.ord v (r1.ord v hv), ?_⟩
+      refine ⟨r2.inv, fun k hk => r2.reg k (r1.reg k hk), fun v hv => r2.ord v (r1.ord v hv),
+        fun k hk => r1.ent k (r2.ent k hk), ?_⟩
       intro o' ho' r hr
       rcases List.mem_cons.1 ho' with rfl | ho'
       · exact r2.reg _ (r1.post o' (by simp) r hr)
@@ -99,7 +101,7 @@ theorem visit_vs (cg : Compile.Graph) (fg : Factory.Graph) (ins : List Nat) (S :
       subst hx
       have r := hfold a.toList st st' hf hinv (fun o ho =>
         ⟨grefsOf_elem a o ho tag hng, fun r hr => hw r ((hrefs r).2 ⟨o, ho, hr⟩)⟩)
-      refine ⟨r.inv, r.reg, r.ord, ?_⟩
+      refine ⟨r.inv, r.reg, r.ord, r.ent, ?_⟩
       intro o' ho' r' hr'
       simp only [List.mem_singleton] at ho'
       subst ho'
@@ -111,7 +113,7 @@ theorem visit_vs (cg : Compile.Graph) (fg : Factory.Graph) (ins : List Nat) (S :
       rename_i hreg
       simp only [Except.ok.injEq] at h
       subst h
-      refine ⟨hinv, fun _ hk => hk, fun _ hv => hv, ?_⟩
+      refine ⟨hinv, fun _ hk => hk, fun _ hv => hv, fun _ hk => hk, ?_⟩
       intro o ho r hr
       simp only [List.mem_singleton] at ho
       subst ho
@@ -154,7 +156,7 @@ theorem visit_vs (cg : Compile.Graph) (fg : Factory.Graph) (ins : List Nat) (S :
               · exact Reach.step j b i (toGApp a) t hj hb hrb hfa htout
             have r1 := hfold a.genOperands st s1 h1 hinv (fun o ho =>
               ⟨S.noNested a hmem o ho, fun r hr => Or.inr ⟨i, toGApp a, hreach, hfa, (operand_refs a r).2 ⟨o, ho, hr⟩⟩⟩)
-            refine ⟨⟨?_, ?_, ?_, ?_⟩, ?_, ?_, ?_⟩
+            refine ⟨⟨?_, ?_, ?_, ?_⟩, ?_, ?_, ?_, ?_⟩
             · intro i' hi'
               simp only [List.mem_append, List.mem_singleton, Visit.app.injEq] at hi'
               rcases hi' with hi' | rfl
@@ -186,6 +188,9 @@ theorem visit_vs (cg : Compile.Graph) (fg : Factory.Graph) (ins : List Nat) (S :
               exact List.mem_append_left _ (r1.reg k hk)
             · intro v hv
               exact List.mem_append_left _ (r1.ord v hv)
+            · intro k hk
+              simp only [List.mem_append, List.mem_singleton, reduceCtorEq, or_false] at hk
+              exact r1.ent k hk
             · intro o ho r hr
               simp only [List.mem_singleton] at ho
               subst ho
@@ -195,7 +200,7 @@ theorem visit_vs (cg : Compile.Graph) (fg : Factory.Graph) (ins : List Nat) (S :
       · -- literal
         simp only [Except.ok.injEq] at h
         subst h
-        refine ⟨hinv, fun _ hk => hk, fun _ hv => hv, ?_⟩
+        refine ⟨hinv, fun _ hk => hk, fun _ hv => hv, fun _ hk => hk, ?_⟩
         intro o ho r hr
         simp only [List.mem_singleton] at ho
         subst ho
@@ -310,5 +315,56 @@ theorem visitOrder_reach (cg : Compile.Graph) (aux : List TAux) (fg : Factory.Gr
           obtain ⟨b', hb', rfl⟩ := S.app_inv j b hb
           obtain ⟨o, ho, hro⟩ := (operand_refs b' x).1 hxb
           exact hprod i a x ha hx (r.inv.ops j b' ihj hb' o ho x hro)
+
+/-- The traversal of a supported graph enters the compiled graph only. -/
+theorem visitOrder_enters (cg : Compile.Graph) (aux : List TAux) (fg : Factory.Graph) (hwf : cg.WF = true)
+    (hsup : Supported cg = true) (hfg : toFactory cg aux = some fg)
+    (order : List Visit) (ho : visitOrder cg = .ok order) (k' : Nat) (hk' : Visit.enter k' ∈ order) : cg.top = .gref k' := by
+  obtain ⟨S, k, sg, htop, hsg, hins, hout⟩ := supported_setup cg aux fg hwf hsup hfg
+  simp only [visitOrder, bind, Except.bind] at ho
+  cases h1 : visit cg cg.fuel cg.top {} with
+  | error err => simp [h1] at ho
+  | ok sfin =>
+    simp only [h1, pure, Except.pure, Except.ok.injEq] at ho
+    subst ho
+    have hfuel : cg.fuel = (4 * (cg.apps.length + cg.graphs.length) + 63) + 1 := rfl
+    rw [hfuel, htop] at h1
+    unfold visit at h1
+    simp only [isRegistered, keyOf, List.contains_eq_mem, List.not_mem_nil, decide_false, Bool.false_eq_true, if_false, hsg,
+      bind, Except.bind] at h1
+    cases h2 : visit cg (4 * (cg.apps.length + cg.graphs.length) + 63) sg.output
+        { registered := ([] : List E) ++ [E.gref k] ++ List.map E.var sg.inputs, order := ([] : List Visit) ++ [Visit.enter k] } with
+    | error err => rw [h2] at h1; simp at h1
+    | ok s1 =>
+      rw [h2] at h1
+      simp only [pure, Except.pure, Except.ok.injEq] at h1
+      subst h1
+      have hinv0 : VI cg fg sg.inputs
+          { registered := ([] : List E) ++ [E.gref k] ++ List.map E.var sg.inputs, order := ([] : List Visit) ++ [Visit.enter k] } := by
+        refine ⟨?_, ?_, ?_, ?_⟩
+        · intro i' hi'; simp at hi'
+        · intro r hr
+          simp only [List.nil_append, List.mem_append, List.mem_singleton, reduceCtorEq, List.mem_map, E.var.injEq,
+            exists_eq_right, false_or] at hr
+          exact Or.inl hr
+        · intro i' a' hi'; simp at hi'
+        · intro k'' hk''
+          simp only [List.nil_append, List.mem_append, List.mem_singleton, List.mem_map] at hk''
+          rcases hk'' with rfl | ⟨t, ht, rfl⟩
+          · exact Or.inl ⟨k, rfl⟩
+          · refine Or.inr ⟨.var t, rfl, rfl, ?_⟩
+            intro r hr
+            simp only [refs_var, List.mem_singleton] at hr
+            subst hr
+            simp only [List.nil_append, List.mem_append, List.mem_map]
+            exact Or.inr ⟨r, ht, rfl⟩
+      have r := visit_vs cg fg sg.inputs S _ sg.output _ s1 h2 hinv0 (WF.outputs hwf k sg hsg)
+        (fun r hr => Or.inl (by rw [hout]; exact hr))
+      have hk1 : Visit.enter k' ∈ s1.order := by
+        have : Visit.enter k' ∈ s1.order ++ [Visit.exit k] := hk'
+        simpa using this
+      have := r.ent k' hk1
+      simp only [List.nil_append, List.mem_singleton, Visit.enter.injEq] at this
+      rw [htop, this]
 
 end Einx.Exec
